@@ -7,7 +7,9 @@ LEAN_MODULES = ['BemppVerif.Props.C05', 'BemppVerif.Props.C12']
 N = "BemppVerif.C05."
 THEOREMS = []
 PARTIAL = {N + "sl_small_k_kernel_bound": "kernel-level bound; the lift to matrix entries (non-negative weights, rules exact for "
-           "|phi_a||phi_b|) and the double-layer bound with constant 1 are not formalised (oracle)",
+           "|phi_a||phi_b|) is not formalised (oracle)",
+           N + "dl_small_k_factor_bound_partial": "the double-layer factor bound is proved with constant 3, the property states "
+           "constant 1 (needs the exact series sum); the constant 1 is checked by the oracle only",
            N + "sl_kernel_symmetric": "complex symmetry of V, W and K' = K^T hold for the regular part and the coincident rule "
            "(swap-invariant, C12); the edge/vertex-adjacent rules are not swap-invariant: 'up to singular-quadrature error' "
            "is oracle-only"}
@@ -28,7 +30,7 @@ def generate(ctx):
     info = dict(kernels=shared.gen_kernels()[0], asm=shared.gen_asm()[0])
     THEOREMS[:] = ([N + t for t in ("helmholtz_conj_symmetry", "imag_wavenumber_is_modified", "sl_kernel_symmetric",
                                     "adl_is_dl_transposed", "sl_small_k_kernel_bound", "regular_part_transposed",
-                                    "regular_part_scales_with_kernel")]
+                                    "regular_part_scales_with_kernel", "dl_small_k_factor_bound_partial")]
                    + shared.KERNEL_FACTS["helmholtz"] + shared.KERNEL_FACTS["modified"] + shared.KERNEL_FACTS["laplace"]
                    + ["BemppVerif.C12.coincident_rule_swap_invariant"])
     return info
